@@ -121,6 +121,9 @@ def generate(rng, config):
             rng.shuffle(a)
     case = {"kind": kind, "k": k, "n": n, "m": m, "planted": planted,
             "planted_form": form,
+            # the documented type is 'iterable(lists)': any iterable
+            "planted_outer": rng.choice(["list", "list", "tuple", "iter",
+                                         "generator"]),
             "klass": rng.choice(["CNF", "CNF", "OPB"]),
             "seed_arg": rng.choice([None, None, 0, 1, 42, "str"]),
             "prng": {"seed": rng.randrange(2 ** 32), "strategy": strategy,
@@ -146,10 +149,19 @@ def execute(case, ctx):
     if planted:
         conv = {"tuple": tuple, "set": set,
                 "frozenset": frozenset}.get(case.get("planted_form"), list)
-        kw["planted_assignments"] = [conv(a) for a in planted]
+        outer = case.get("planted_outer", "list")
+        items = [conv(a) for a in planted]
+        kw["planted_assignments"] = {
+            "list": lambda: items, "tuple": lambda: tuple(items),
+            "iter": lambda: iter(items),
+            "generator": lambda: (a for a in items)}[outer]()
+        if outer in ("iter", "generator"):
+            ctx.fault("planted_assignments_one_shot_iterable")
     if case["seed_arg"] is not None:
         kw["seed"] = case["seed_arg"]
     rounds = [case["kind"]] + (case.get("again") or [])
+    if planted and case.get("planted_outer") in ("iter", "generator"):
+        rounds = rounds[:1]          # a one-shot iterable serves one request
     for ri, kind in enumerate(rounds):
         if ri:
             ctx.fault("same_argument_objects_reused")
